@@ -15,6 +15,8 @@
 import MitmVerif.Model.C24
 import MitmVerif.Model.C24_Route
 import MitmVerif.Gen.C24
+import MitmVerif.Model.C24_Cred
+import MitmVerif.Props.C20
 namespace MitmVerif.Props.C24
 open MitmVerif MitmVerif.C24
 
@@ -1108,6 +1110,53 @@ example : (rrunVar (fun _ => .upstream) (RState.init (fun _ => .upstream))
   decide +kernel
 
 end Refinement
+
+/-! ## Round 4: the credential value (`parse_upstream_auth`) -/
+
+section Credential
+open MitmVerif.C20.B64 MitmVerif.C24.Cred
+
+/-- `re.search(".+:", auth)`: some ':' is directly preceded by a character other than "\n" -/
+theorem validSpec_iff (auth : CText) :
+    validSpec auth = true ↔ ∃ pre a post, auth = pre ++ a :: 58 :: post ∧ a ≠ 10 := by
+  constructor
+  · intro h
+    induction auth with
+    | nil => simp [validSpec] at h
+    | cons a rest ih =>
+      cases rest with
+      | nil => simp [validSpec] at h
+      | cons b rest' =>
+        simp only [validSpec, Bool.or_eq_true, Bool.and_eq_true, beq_iff_eq, bne_iff_ne, ne_eq] at h
+        rcases h with ⟨rfl, ha⟩ | h
+        · exact ⟨[], a, rest', rfl, ha⟩
+        · obtain ⟨pre, x, post, heq, hx⟩ := ih h
+          exact ⟨a :: pre, x, post, by simp [heq], hx⟩
+  · rintro ⟨pre, a, post, rfl, ha⟩
+    induction pre with
+    | nil => simp [validSpec, ha]
+    | cons p ps ih =>
+      cases ps with
+      | nil => simp [validSpec, ha]
+      | cons q qs => simp only [List.cons_append, validSpec]; simp only [List.cons_append] at ih; simp [ih]
+
+/-- **what the upstream proxy receives is the configured credential**: for a valid specification of Unicode scalar
+    values, `parse_upstream_auth` yields `Basic <token>` whose token decodes — with the transcribed `a2b_base64` and
+    UTF-8 decoder, no library hypothesis — to exactly the configured `upstream_auth` text; an invalid specification is
+    refused. -/
+theorem upstream_value_decodes (auth : CText) (hsc : ∀ c ∈ auth, MitmVerif.Props.C20.Scalar c) :
+    (validSpec auth = true →
+      ∃ tok, upstreamAuthValue auth = some (strText "Basic " ++ tok) ∧ decodeCredStd tok = some auth) ∧
+    (validSpec auth = false → upstreamAuthValue auth = none) := by
+  constructor
+  · intro hv
+    exact ⟨b2a (utf8enc auth), by simp [upstreamAuthValue, hv], MitmVerif.Props.C20.decodeCredStd_b2a auth hsc⟩
+  · intro hv; simp [upstreamAuthValue, hv]
+
+example : upstreamAuthValue (strText "u:p") = some (strText "Basic dTpw") ∧ upstreamAuthValue (strText ":p") = none ∧
+    upstreamAuthValue (strText "a\n:p") = none ∧ validSpec (strText "x\ny:z") = true := by decide +kernel
+
+end Credential
 
 /-! ### the order of the default addon chain -/
 
